@@ -705,7 +705,11 @@ class World:
             ctx.violation(f"{oid}.{sub}", f"{label}: {detail}", sig=sig, fatal=False)
 
         # ---------- raw route ----------
-        with h5py.File(self.dir / pin, "r") as hi, h5py.File(self.dir / pout, "r") as ho:
+        events_group_lost = False
+        # (anything that cannot be read back from the output is a finding about the output, not a harness problem)
+        with ctx.sut(f"{oid}.compare", sig={"what": "raw_route_raises"}, fatal=False), \
+                h5py.File(self.dir / pin, "r") as hi, h5py.File(self.dir / pout, "r") as ho:
+            events_group_lost = "events" in hi and "events" not in ho
             iattrs = dict(hi.attrs)
             # metadata
             for k, v in iattrs.items():
@@ -804,7 +808,6 @@ class World:
                 extra = sorted(set(obe) - set(ibe))
                 if extra:
                     viol("basin.events", f"internal basin features {extra} appear only in the output", {"what": "basin_events_extra"})
-            events_group_lost = "events" in hi and "events" not in ho
 
         # ---------- dclab route ----------
         import dclab
@@ -864,36 +867,37 @@ class World:
                             if sr.exc is None and not feat_equal(a, b):
                                 viol("basin.feature", f"basin feature {f} differs between input and output", {"what": "basin_feature_value"})
                 # logs / tables / config through dclab
-                ilogs = {k: list(dsi.logs[k]) for k in dsi.logs}
-                ologs = {k: list(dso.logs[k]) for k in dso.logs}
-                self.compare_logs(ilogs, ologs, tool, strip_logs, viol, "dclab")
-                for k in dsi.tables:
-                    ctx.checked()
-                    if k not in dso.tables:
-                        viol("table.missing", f"table {k} is not offered by dclab for the output", {"what": "table_missing"})
-                        continue
-                    ti, to = dsi.tables[k], dso.tables[k]
-                    if not val_equal(ti[:], to[:]):
-                        viol("table.cells", f"table {k}: cells differ (dclab)", {"what": "table_cells"})
-                    ia, oa = dict(ti.attrs), dict(to.attrs)
-                    bad = sorted(a for a in ia if a not in oa or not val_equal(ia[a], oa[a]))
-                    if bad:
-                        viol("table.attrs", f"table {k}: attributes {bad} lost or changed (dclab)", {"what": "table_attrs"})
-                for sec in dsi.config:
-                    if sec in ("filtering", "calculation"):
-                        continue
-                    for key, v in dsi.config[sec].items():
-                        if (sec, key) == ("setup", "software version"):
-                            continue
+                with ctx.sut(f"{oid}.compare", sig={"what": "dclab_route_raises"}, fatal=False):
+                    ilogs = {k: list(dsi.logs[k]) for k in dsi.logs}
+                    ologs = {k: list(dso.logs[k]) for k in dso.logs}
+                    self.compare_logs(ilogs, ologs, tool, strip_logs, viol, "dclab")
+                    for k in dsi.tables:
                         ctx.checked()
-                        if sec not in dso.config or key not in dso.config[sec] or not val_equal(v, dso.config[sec][key]):
-                            viol("meta", f"[{sec}] {key}: {v!r} became {dso.config.get(sec, {}).get(key, '<missing>')!r} (dclab)",
-                                 {"what": "meta_value", "key": f"{sec}:{key}"})
-                if not strip_basins:
-                    ctx.checked()
-                    a, b = canon(dsi.basins_get_dicts()), canon(dso.basins_get_dicts())
-                    if a != b:
-                        viol("basin.defs", f"basin definitions differ (dclab): {a} vs {b}", {"what": "basin_defs"})
+                        if k not in dso.tables:
+                            viol("table.missing", f"table {k} is not offered by dclab for the output", {"what": "table_missing"})
+                            continue
+                        ti, to = dsi.tables[k], dso.tables[k]
+                        if not val_equal(ti[:], to[:]):
+                            viol("table.cells", f"table {k}: cells differ (dclab)", {"what": "table_cells"})
+                        ia, oa = dict(ti.attrs), dict(to.attrs)
+                        bad = sorted(a for a in ia if a not in oa or not val_equal(ia[a], oa[a]))
+                        if bad:
+                            viol("table.attrs", f"table {k}: attributes {bad} lost or changed (dclab)", {"what": "table_attrs"})
+                    for sec in dsi.config:
+                        if sec in ("filtering", "calculation"):
+                            continue
+                        for key, v in dsi.config[sec].items():
+                            if (sec, key) == ("setup", "software version"):
+                                continue
+                            ctx.checked()
+                            if sec not in dso.config or key not in dso.config[sec] or not val_equal(v, dso.config[sec][key]):
+                                viol("meta", f"[{sec}] {key}: {v!r} became {dso.config.get(sec, {}).get(key, '<missing>')!r} (dclab)",
+                                     {"what": "meta_value", "key": f"{sec}:{key}"})
+                    if not strip_basins:
+                        ctx.checked()
+                        a, b = canon(dsi.basins_get_dicts()), canon(dso.basins_get_dicts())
+                        if a != b:
+                            viol("basin.defs", f"basin definitions differ (dclab): {a} vs {b}", {"what": "basin_defs"})
         finally:
             with quiet():
                 dsi.close()
@@ -980,7 +984,8 @@ class World:
             ds0 = dclab.new_dataset(self.dir / pin, enable_basins=False)
             dsb = dclab.new_dataset(self.dir / pin) if sbf else ds0
         try:
-            with quiet(), h5py.File(self.dir / pout, "r") as ho:
+            with ctx.sut("C08.condense.compare", sig={"what": "raises"}, fatal=False), quiet(), \
+                    h5py.File(self.dir / pout, "r") as ho:
                 oev = ho["events"] if "events" in ho else {}
                 obe = ho["basin_events"] if "basin_events" in ho else {}
                 n = len(ds0)
@@ -1083,53 +1088,54 @@ class World:
                 dsi.close()
                 return
             try:
-                feats = list(dsi.features_innate)
-                lengths = []
-                for f in feats:
-                    if f == "trace":
-                        lengths += [len(dsi["trace"][k]) for k in dsi["trace"].keys()]
-                    else:
-                        lengths.append(len(dsi[f]))
-                lmin = int(min(lengths))
-                keep = np.ones(lmin, dtype=bool)
-
-                def empty(i):
-                    return (("contour" in feats and i < len(dsi["contour"]) and np.all(np.asarray(dsi["contour"][i]) == 0))
-                            or ("image" in feats and np.all(np.asarray(dsi["image"][i]) == 0)))
-                if op["skip_i"] and lmin and empty(0):
-                    keep[0] = False
-                if op["skip_f"] and "image" in feats and len(dsi) - 1 < lmin and np.all(np.asarray(dsi["image"][len(dsi) - 1]) == 0):
-                    keep[len(dsi) - 1] = False
-                idx = np.flatnonzero(keep)
-                fout = list(dso.features_innate)
-                ctx.checked()
-                if sorted(fout) != sorted(feats):
-                    ctx.violation("C08.tdms.features", f"{label}: output features {sorted(fout)} != tdms features {sorted(feats)}",
-                                  sig={"what": "set"}, fatal=False)
-                ctx.checked()
-                if len(dso) != len(idx):
-                    ctx.violation("C08.tdms.features", f"{label}: output has {len(dso)} events, expected {len(idx)} "
-                                  f"(tdms {len(dsi)}, shortest feature {lmin})", sig={"what": "len"}, fatal=False)
-                else:
+                with ctx.sut("C08.tdms.compare", sig={"what": "raises"}, fatal=False):
+                    feats = list(dsi.features_innate)
+                    lengths = []
                     for f in feats:
-                        if f not in fout:
-                            continue
-                        ctx.checked()
                         if f == "trace":
-                            a = {k: np.asarray(dsi["trace"][k])[idx] for k in sorted(dsi["trace"].keys())}
-                            b = {k: np.asarray(dso["trace"][k][:]) for k in sorted(dso["trace"].keys())}
-                        elif f in ("contour", "mask", "image"):
-                            a = [np.asarray(dsi[f][int(i)]) for i in idx]
-                            b = [np.asarray(dso[f][j]) for j in range(len(idx))]
+                            lengths += [len(dsi["trace"][k]) for k in dsi["trace"].keys()]
                         else:
-                            a = np.asarray(dsi[f][:])[idx]
-                            b = np.asarray(dso[f][:])
-                        if not feat_equal(a, b):
-                            what = "value"
-                            if isinstance(a, np.ndarray) and a.dtype.kind == "i" and a.min() < 0 and b.dtype.kind == "u":
-                                what = "negative_to_unsigned"
-                            ctx.violation("C08.tdms.features", f"{label}: feature {f} of the output differs from the tdms data "
-                                          f"({getattr(a, 'dtype', '')} -> {getattr(b, 'dtype', '')})", sig={"what": what}, fatal=False)
+                            lengths.append(len(dsi[f]))
+                    lmin = int(min(lengths))
+                    keep = np.ones(lmin, dtype=bool)
+
+                    def empty(i):
+                        return (("contour" in feats and i < len(dsi["contour"]) and np.all(np.asarray(dsi["contour"][i]) == 0))
+                                or ("image" in feats and np.all(np.asarray(dsi["image"][i]) == 0)))
+                    if op["skip_i"] and lmin and empty(0):
+                        keep[0] = False
+                    if op["skip_f"] and "image" in feats and len(dsi) - 1 < lmin and np.all(np.asarray(dsi["image"][len(dsi) - 1]) == 0):
+                        keep[len(dsi) - 1] = False
+                    idx = np.flatnonzero(keep)
+                    fout = list(dso.features_innate)
+                    ctx.checked()
+                    if sorted(fout) != sorted(feats):
+                        ctx.violation("C08.tdms.features", f"{label}: output features {sorted(fout)} != tdms features {sorted(feats)}",
+                                      sig={"what": "set"}, fatal=False)
+                    ctx.checked()
+                    if len(dso) != len(idx):
+                        ctx.violation("C08.tdms.features", f"{label}: output has {len(dso)} events, expected {len(idx)} "
+                                      f"(tdms {len(dsi)}, shortest feature {lmin})", sig={"what": "len"}, fatal=False)
+                    else:
+                        for f in feats:
+                            if f not in fout:
+                                continue
+                            ctx.checked()
+                            if f == "trace":
+                                a = {k: np.asarray(dsi["trace"][k])[idx] for k in sorted(dsi["trace"].keys())}
+                                b = {k: np.asarray(dso["trace"][k][:]) for k in sorted(dso["trace"].keys())}
+                            elif f in ("contour", "mask", "image"):
+                                a = [np.asarray(dsi[f][int(i)]) for i in idx]
+                                b = [np.asarray(dso[f][j]) for j in range(len(idx))]
+                            else:
+                                a = np.asarray(dsi[f][:])[idx]
+                                b = np.asarray(dso[f][:])
+                            if not feat_equal(a, b):
+                                what = "value"
+                                if isinstance(a, np.ndarray) and a.dtype.kind == "i" and a.min() < 0 and b.dtype.kind == "u":
+                                    what = "negative_to_unsigned"
+                                ctx.violation("C08.tdms.features", f"{label}: feature {f} of the output differs from the tdms data "
+                                              f"({getattr(a, 'dtype', '')} -> {getattr(b, 'dtype', '')})", sig={"what": what}, fatal=False)
             finally:
                 dsi.close()
                 dso.close()
